@@ -84,6 +84,9 @@ FileErrs(files, name, fmt, o, Rs, sids, pfx) ==
 PartRange(i) == LET ps == SpecRes.parts
                     before == FoldLeft(LAMBDA a, j : a + ps[j], 0, [j \in 1..(i - 1) |-> j])
                 IN [lo |-> before + 1, hi |-> before + ps[i]]
+\* the i-th part is DEST.(i-1) (the names are the specification's, not the harness's: a part that was not
+\* written is a missing file, whatever else the run left behind)
+PartFile(i) == "dest.out." \o ToString(i - 1)
 RunErrs(e) ==
   IF ~ExpectOK THEN F("C03.refuses", e.rc # 0)
   ELSE IF e.rc # 0 THEN {IF SplitOn THEN "C17.exit0" ELSE "C03.exit0"}
@@ -92,7 +95,7 @@ RunErrs(e) ==
   ELSE
      F("C17.parts", Len(e.files) = Len(SpecRes.parts)) \cup
      UNION {LET r == PartRange(i) IN
-            FileErrs(e.files, Case.partnames[i], Case.destfmt, DO, SubSeq(Kept(1), r.lo, r.hi),
+            FileErrs(e.files, PartFile(i), Case.destfmt, DO, SubSeq(Kept(1), r.lo, r.hi),
                      SubSeq(KeptSids(1), r.lo, r.hi), "C17.part") : i \in 1..Len(SpecRes.parts)}
 SelfReadErrs(e) ==       \* e.src = index of source file; e.events = yields of the tool's reader on the file it wrote
   IF ~ExpectOK \/ SplitOn THEN {}
